@@ -447,7 +447,9 @@ def gen_media_ast(rng, feats, k1=False, k8=False):
             s["pdt"] = rng.choice(G.DATES); tags.append(("pdt", s["pdt"])); hit("PROGRAM-DATE-TIME")
         s["dur_lit"] = G.dec_seconds(rng, maxd); s["dur"] = secs_to_ns(s["dur_lit"])
         # a title is everything behind the first comma: commas, '=', '#', digits in it are title text, whatever the duration looks like
-        s["title"] = None if rng.random() < 0.55 else rng.choice(["title", "a, b", "日本", "x=y", "t\t2", ",", ",,", "a,", ",a", "#x", "1", "1.5", "A=1,B=2", "10,", "NONE"])
+        s["title"] = None if rng.random() < 0.55 else rng.choice(["title", "a, b", "日本", "x=y", "t\t2", ",", ",,", "a,", ",a", "#x", "1", "1.5", "A=1,B=2", "10,", "NONE",
+                                                                       # a title is free text: quotes, apostrophes, backslashes in it are characters of the title
+                                                                       '"quoted"', '""', '"', 'a"b', '"a', 'a"', "'a'", '"a","b"', "a\\", '"a b"', '""x""'])
         s["title_pad"] = rng.choice(["", "", " ", "  "])
         tags.append(("inf", None)); hit("EXTINF")
         rng.shuffle(tags)
